@@ -2,5 +2,11 @@
 
 package command
 
+import "io"
+
 // verifFake is a no-op without the verif build tag.
 func verifFake(_ *CmdWrapper) VerifFakeCmd { return nil }
+
+func verifPtyStart(c *CmdWrapperPty, f VerifFakeCmd) error { return nil }
+
+func verifPtyStdout(c *CmdWrapperPty, f VerifFakeCmd) (io.ReadCloser, error) { return nil, nil }
